@@ -1,5 +1,7 @@
 pub mod common;
+pub mod c01;
 pub mod c02;
 pub mod c03;
 pub mod c11;
+pub mod c14;
 pub mod c15;
